@@ -34,11 +34,13 @@ def main(tier, replay=None):
     seed = common.seed()
     reduced = tier == "quick"
     rep.assumptions += [
-        "no big-endian host exists in the sandbox: the runtime built with -DBP_BIG_ENDIAN runs on this "
+        "sections (a)-(d): no big-endian host exists in the sandbox: the runtime built with -DBP_BIG_ENDIAN runs on this "
         "little-endian host on storage laid out big-endian by the harness",
-        "not emulable and therefore excluded from the runtime big-endian claim: extensible prefixes (a native "
-        "uint16_t local) and decode of signed widths other than 8/16/32/64 (native sign fix-up); both remain "
-        "covered by the design-level model and by the little-endian runs",
+        "not emulable in (a)-(d): extensible prefixes (a native uint16_t local) and decode of signed widths other "
+        "than 8/16/32/64 (native sign fix-up); section (e) covers both: there the C sources are compiled by clang for "
+        "a big-endian LP64 target into LLVM IR, every 16/32/64-bit integer load and store is byte-swapped and the "
+        "module is retargeted to this host, so every integer object has big-endian memory semantics "
+        "(trusted: that rewriting, bpverif/beir.py, and the equality of the two LP64 struct layouts)",
         "the big-endian branch of -O output is value based and runs on native storage",
     ]
     # ---- design level ----
@@ -117,9 +119,50 @@ def main(tier, replay=None):
                         cwire.drive_case(c, lib, worker, want=("enc", "dec"))
                     rep.feature("opt:--endian %s%s" % (endian, " -DBP_BIG_ENDIAN" if define_be else ""))
                 pywire.validate_and_decide(rep, cases, count_events=("CEncode", "CDecode"))
+            # ---- (e) a big-endian host without one: clang IR for a big-endian LP64 target, every integer load /
+            # store byte-swapped, retargeted to this host (bpverif/beir.py).  All integer objects -- the runtime's
+            # own temporaries (16-bit prefix, sign fix-up) included -- have big-endian memory semantics, so
+            # extensible types and the decode of every signed width are decided here as well ----
+            import shutil as _shutil
+            if _shutil.which("clang") is None:
+                rep.cov["true_big_endian_build"] = {"available": False, "why": "clang not on PATH"}
+            else:
+                bb = cdrive.BEBuilder(scratch)
+                cases = []
+                for k in range(40 if reduced else 600):
+                    prog, rng = gen.rand_case(seed, 35000 + k, p_ext=0.45, max_bits=[80, 300, 1200][k % 3])
+                    t = prog["rtype"]
+                    cases.append(cwire.CCase("c06-trueBE-%d" % k, prog,
+                                             [gen.gen_value(rng, t, "ones")] + [gen.gen_value(rng, t, "rand") for _ in range(2)]))
+                for T in types:
+                    key = "%s%s" % (T["k"], T.get("n", ""))
+                    prog = ufull.ufull_prog(T)
+                    vals = [ufull.fill(prog["rtype"], x, p) for x, p in ufull.ufull_values(T, True)]
+                    vals += ufull.mixed_values(T, random.Random("c06e/%d/%s" % (seed, key)), prog, 1)
+                    cases.append(cwire.CCase("c06-trueBE-ufull-%s" % key, prog, vals))
+                for k in range(10 if reduced else 120):
+                    # optimization-mode output too (its big-endian branch is selected by the predefined macros)
+                    prog, rng = gen.rand_case(seed, 36000 + k, p_ext=0.0)
+                    t = prog["rtype"]
+                    cases.append(cwire.CCase("c06-trueBE-opt-%d" % k, prog,
+                                             [gen.gen_value(rng, t, "ones"), gen.gen_value(rng, t, "rand")], note={"opt": True}))
+                std = [c for c in cases if not c.note.get("opt")]
+                opt = [c for c in cases if c.note.get("opt")]
+                nbuilt = 0
+                for group, optimize in ((std, False), (opt, True)):
+                    for c, lib in cwire.prepare(group, scratch, bb, optimize=optimize):
+                        if lib is not None:
+                            nbuilt += 1
+                            cwire.drive_case(c, lib, worker, want=("enc", "dec"), be=True)
+                        rep.feature("true-big-endian:%s" % ("-O" if optimize else "standard"))
+                rep.cov["true_big_endian_build"] = {"available": True, "schemas_built": nbuilt, "schemas": len(cases),
+                                                    "how": "clang --target=powerpc64 -O0 -emit-llvm, bswap on every "
+                                                           "i16/i32/i64 load/store, retargeted to x86-64"}
+                pywire.validate_and_decide(rep, cases, count_events=("CEncode", "CDecode"))
     finally:
         worker.close()
-    rep.cov["rule"] = ("(a) every BpCopyBufferBits(n<=40/80, di, si) call of the -DBP_BIG_ENDIAN build; (b) U_full leaf "
+    rep.cov["rule"] = ("(e) random schemas incl. extensible ones, U_full and -O output on a byte-swapped big-endian build; "
+                       "(a) every BpCopyBufferBits(n<=40/80, di, si) call of the -DBP_BIG_ENDIAN build; (b) U_full leaf "
                        "types x offsets x positions and (c) array capacities 1..17 of 8/16/32/64-bit and other "
                        "elements through the big-endian runtime on big-endian storage; (d) random traditional "
                        "schemas through -O output for every --endian setting and preprocessor branch; every "
